@@ -12,7 +12,7 @@ table = subprocess.run([sys.executable, os.path.join(HERE, "tools", "seed_table.
 summary = table.stderr.strip()
 INTRO = """### 10.5 Seeded changes (independent sub-agents) and which check catches them
 
-Five rounds of seeding were run during the build. In each round a fresh sub-agent per property saw
+Six rounds of seeding were run during the build. In each round a fresh sub-agent per property saw
 only the property text (statement, quantifier, mechanisms, observation points) and its own scratch
 git worktree — nothing from `/verif` — and produced two changes that break the property, pass the
 full unedited test suite and come with a demonstration program. From round 3 on the prompt also
@@ -28,11 +28,11 @@ never inside `/repo`; results and the violated labels are stored in each `seeded
 `fix:` commit touched their lines (noted in their meta.json).
 
 **What the rounds showed.** Rounds 1-2 (44 changes): about 10 were missed at first. Round 3 (34): 8
-missed. Round 4 (36, aimed at untouched clauses): 15 missed. Round 5 (35): 12 missed (five of them
-only because I had pre-empted the others from the agents' summaries). Every miss led to a stronger
-check, except the one that stays outside the claimed scope (below). Twice the sub-agents'
-side remarks about the *unmodified* tree pointed at genuine defects (the unguarded INIT branch,
-the BUNDLE transport handling), which the strengthened checks then found and confirmed. The recurring reasons for a miss, and
+missed. Round 4 (36, aimed at untouched clauses): 15 missed. Round 5 (35): 12 missed (counting five
+that I pre-empted from the agents' summaries before their evaluation). Round 6 (17): 9 missed. Every miss led to a stronger
+check, except the one that stays outside the claimed scope (below). The sub-agents' side remarks about the *unmodified* tree (asked for explicitly in round 6) pointed
+at a dozen genuine defects, each of which was first reproduced by a strengthened check and then
+repaired (section 10.3). The recurring reasons for a miss, and
 what was done about each:
 
 * *history deeper than the quick bound* — C12 (register, register, unregister, route), C14 (a
